@@ -17,7 +17,7 @@ func init() {
 		ID:  "C26",
 		Run: runC26,
 		Explanation: "Static decision of the S3 router / authentication matrix: (1) ROUTE-wrapped: every handler registered on the bucket routers is iam.Auth(handler, action) (the bucket-less ListBuckets authenticates itself); (2) ROUTE-action: no mutating method (PUT/POST/DELETE) is authorised by the Read or List action; (3) ROUTE-passthrough: for each request auth type that authRequest lets through without establishing an identity (found by analysing its returns), every handler reachable under that type's method precondition — taking route order into account — itself calls the type's verifier; " +
-			"(4) GUARD-auth: Auth runs the handler only when authRequest answered ErrNone; authRequest answers ErrNone with an identity only past a successful signature check and canDo; the verifiers of the pass-through types (streaming seed signature, POST policy) refuse unknown keys, mismatching signatures and identities that may not write the bucket; (5) GUARD-iam: GetActions appends an action only under Effect == Allow, and a bucket-scoped action only for a resource of the exact form <bucket>/*; the two action-name tables are inverse. Signature mathematics is not decided.",
+			"(4) GUARD-auth: Auth runs the handler only when authRequest answered ErrNone; authRequest answers ErrNone with an identity only past a successful signature check and canDo; the verifiers of the pass-through types (streaming seed signature, POST policy) refuse unknown keys, mismatching signatures and identities that may not write the bucket; (5) GUARD-iam: GetActions appends an action only under Effect == Allow, and a bucket-scoped action only for a resource of the exact form <bucket>/*; the two action-name tables are inverse. Signature mathematics is not decided. Also decided: canDo matches a grant by prefix only in its wildcard form and by equality otherwise.",
 		Assumptions: []string{"gorilla/mux tries routes in registration order", "the HMAC comparison helpers compare what they are given"},
 		Trusted:     append([]string{"gorilla/mux route matching"}, baseTrusted...),
 	})
